@@ -706,6 +706,19 @@ def _data_files(ctx, res) -> None:
     # both derive the file from the same helper with the name parameter
     ga = [norm(c) for c in calls_in(rd.node) if is_self_attr(c.func)]
     gb = [norm(c) for c in calls_in(wr.node) if is_self_attr(c.func)]
+    if not set(ga) & set(gb):
+        # the helper may have been inlined into both: then the two compute the file from the name by the same expression
+        def from_name(fn):
+            node = common.inlined(idx, fn)
+            ps = fn.call_params()
+            out = set()
+            for a_ in walk_local(node):
+                if isinstance(a_, ast.Assign):
+                    v = common._subst_single_locals(node, a_.value)
+                    if ps and any(isinstance(x, ast.Name) and x.id == ps[0] for x in ast.walk(v)) and any(isinstance(x, ast.Call) for x in ast.walk(v)):
+                        out.add(norm(v))
+            return out
+        ga, gb = list(from_name(rd)), list(from_name(wr))
     res.add("R12.5", "file-of-name", bool(set(ga) & set(gb)), wr.where,
             "reader and writer map the data name to a file with the same helper call" if set(ga) & set(gb) else
             "reader and writer map the data-file name to a path differently")
